@@ -23,7 +23,7 @@ ASSUMPTIONS = [
 NSHARDS = {"quick": 16, "thorough": 16}
 N_MIX = {"quick": 200, "thorough": 5000}
 N_SIM = {"quick": 16, "thorough": 400}
-REQUIRE = {"kill_individual": 500, "kill_pool_level": 100, "ticks_with_more_than_8_pool_level_kills": 10, "quiet_pool_memory_updates_without_exit": 500000, "suspend_accepted": 200, "assignment_after_suspension": 50,
+REQUIRE = {"scale:script_of_more_than_4096_ticks": 1, "kill_individual": 500, "kill_pool_level": 100, "ticks_with_more_than_8_pool_level_kills": 10, "quiet_pool_memory_updates_without_exit": 500000, "suspend_accepted": 200, "assignment_after_suspension": 50,
            "sim_kill_ticks_judged": 50, "sim_runs": 50, "ticks_with_empty_pool": 100}
 
 
